@@ -94,3 +94,53 @@ Example picker_cascade :
   let st := run_p [PAppend 0; PSelect 7; DRemoveComp 0 0] (init_p ds2 fl1 5 false) in
   (attrs_of (p_ch st), p_sel st) = ([1], Some 1).
 Proof. vm_compute. reflexivity. Qed.
+
+(* ---- the translated machine (Model.v part 5 over coq/gen/Gen_viewer.v) ---- *)
+Definition gen_demo_ops : list dop :=
+  [Plain (Append 0); Plain (NewGroup 7); Plain (AddData 0); Plain (Append 1); Plain (NewGroup 8); Plain (AddSubset 3 1 8)].
+(* the hypothesis of gen_viewer_inv_reachable holds; the viewer ends with 4 layers (dataset 0, its two subsets, the lone
+   subset of dataset 1), layer states in step, no fuel exhaustion *)
+Example gen_demo_plain : no_blocks gen_demo_ops = true.
+Proof. reflexivity. Qed.
+Example gen_demo_layers :
+  let r := grun gen_demo_ops (ginit true) [] in
+  arts (gview (fst r)) = [LData 0; LSub 0 0 7; LSub 2 0 8; LSub 3 1 8] /\
+  sls (gview (fst r)) = arts (gview (fst r)) /\ snd r = [0] /\ Gen_viewer.h_err (snd (fst r)) = false.
+Proof. vm_compute. repeat split. Qed.
+(* the same history on the hand model: same layers *)
+Example gen_demo_hand :
+  arts (fst (fst (run_d gen_demo_ops (init_v true, None) []))) = [LData 0; LSub 0 0 7; LSub 2 0 8; LSub 3 1 8].
+Proof. vm_compute. reflexivity. Qed.
+(* removal through the translated functions: remove_data prunes state.layers inside its delay block and the container
+   through the held-back 'layers' callback *)
+Example gen_demo_remove :
+  let r := grun (gen_demo_ops ++ [Plain (RemoveData 0)]) (ginit true) [] in
+  arts (gview (fst r)) = [LSub 3 1 8] /\ sls (gview (fst r)) = [LSub 3 1 8] /\ Gen_viewer.h_err (snd (fst r)) = false.
+Proof. vm_compute. repeat split. Qed.
+(* grel is inhabited beyond the initial state *)
+Example gen_demo_rel : grel (fst (step (Append 0) (init_v true))) (fst (gstep (Append 0) (ginit true))).
+Proof. apply (gen_step_refines (Append 0)). apply grel_init. Qed.
+
+(* ---- the translated picker machine (Model.v part 6 over coq/gen/Gen_picker.v) ---- *)
+Definition gp_ds : list dinfo := [mkD 0 [(10, 0); (11, 2)] [(12, 10)] [13; 14] [15; 16]; mkD 1 [(20, 1)] [] [21] []].
+Definition gp_ops : list pop := [PAppend 0; PAppend 1; PFlag 3 true; DRemoveComp 0 10; PSelect 11; DcRemove 0].
+Example gp_known : pops_known (map di_id gp_ds) gp_ops = true.
+Proof. reflexivity. Qed.
+Example gp_run :
+  let st := run_gp gp_ops (init_p gp_ds (mkF true true true false false true false) 0 true) in
+  p_datas st = [1] /\ attrs_of (p_ch st) = [20; 21] /\ p_sel st = Some 20.
+Proof. vm_compute. repeat split. Qed.
+Example gp_same_as_hand :
+  run_gp gp_ops (init_p gp_ds (mkF true true true false false true false) 0 true) =
+  run_p gp_ops (init_p gp_ds (mkF true true true false false true false) 0 true).
+Proof. vm_compute. reflexivity. Qed.
+
+(* ---- the translated dataset pickers (Model.v part 7) ---- *)
+Example gdp_run :
+  let st := run_gdp [DPSetMultiple [2; 0; 2; 1]; DPSelect 1; DPDcRemove 1; DPAppend 0; DPRemove 2] (init_dp true [0; 1; 2]) in
+  dp_list st = [0] /\ dp_ch st = [CAtt 0] /\ dp_sel st = Some 0.
+Proof. vm_compute. repeat split. Qed.
+Example gdp_collection :
+  let st := run_gdp [DPDcAdd 3; DPSelect 3; DPDcRemove 3] (init_dp false [0; 1]) in
+  dp_ch st = [CAtt 0; CAtt 1] /\ dp_sel st = Some 0.
+Proof. vm_compute. repeat split. Qed.
